@@ -140,6 +140,8 @@ def run(ctx):
                     corr.append(f"ec.add {d} {a} {b}")
                     props.append(f"prop.c17add {d} {a} {b}")
                 corr.append(f"ec.eq {d} {reps_p[-1]} {reps_q[0]}")
+                if rng.random() < (0.5 if P is None or Q is None else 0.15):
+                    props.append(f"prop.c17neg {d} {rng.choice(reps_p)} {rng.choice(reps_q)}")
                 if P and Q:
                     corr.append(f"ap.add {d} {P[0]},{P[1]} {Q[0]},{Q[1]}")
                     # other integer representatives of the same two points (what __neg__ / __mul__ build, what a caller may pass)
@@ -212,6 +214,9 @@ def run(ctx):
                 corr.append(f"ec.muladd {name} {pj} {sint(k1)} {qj} {sint(k2)}")
                 props.append(f"prop.c17muladd {name} {pj} {sint(k1)} {qj} {sint(k2)}")
             corr.append(f"ec.double {name} {rng.choice(reps)}")
+            for rq in scalings(rng, c, None) + [rng.choice(reps)]:
+                props.append(f"prop.c17neg {name} {rq} {rng.choice(reps)}")
+                props.append(f"prop.c17neg {name} {rng.choice(reps)} {rq}")
             for k in edge_scalars(rng, n, 1):
                 if k >= 0:
                     corr.append(f"ap.mul {name} {rng.choice([n, 0])} {P[0]},{P[1]} {sint(k)}")
